@@ -12,6 +12,7 @@ import (
 	"log/slog"
 	"net/http"
 	"net/http/httptest"
+	"strconv"
 	"sync"
 	"sync/atomic"
 
@@ -326,6 +327,11 @@ func c20ExchangeOnce(c *c20Case, direct bool) {
 		obs.ACAO = v
 	}
 	obs.Body = rec.Body.String()
+	// a declared length is the length of the body in bytes (a recorder does not enforce it, a connection does)
+	if cl := res.Header.Get("Content-Length"); cl != "" && cl != strconv.Itoa(len(obs.Body)) && obs.Panic == "" {
+		obs.Panic = "Content-Length " + cl + " for a body of " + strconv.Itoa(len(obs.Body)) + " bytes"
+		obs.Status = -1
+	}
 }
 
 // c20BusyWriter: a ResponseWriter in whose Header and WriteHeader calls another request for another document is
@@ -459,7 +465,9 @@ func c20Run(c *c20Case) {
 // ---- generators
 var c20Strs = []string{"", "", "a", "relay <b>&co", "日本語", "q\"uo\\te", "line\nbreak", "sep ", "wss://r.example",
 	// percent signs: a document that passes through a formatting function as its format string loses them
-	"100% free", "https://r.example/icon%20v2.png", "50%", "%s%d%v", "%%"}
+	"100% free", "https://r.example/icon%20v2.png", "50%", "%s%d%v", "%%",
+	// text that merely looks like a JSON escape, and a drive letter
+	"write \\u0026 to get an ampersand", "C:\\u003e", "\\u003cb\\u003e"}
 var c20Ints = []int{0, 0, 1, -1, 7, 100, 65535, 1 << 31, -1 << 63, 1<<63 - 1}
 var c20KindNums = []int{0, 1, 4, 7, 40, -1, -5, 30023, 1 << 40}
 
